@@ -2,11 +2,12 @@
 (explicit keyword, omitted-but-defaulted with a bad declared default, *args element, **kwargs value) and bodies scripted
 to return a non-conforming value; side-effect journal written by the generated bodies."""
 import _call_common as C
+import _call_reentrant as R
 import _gen_common as G
 
 RULE = ('generated programs as in C05 (all callable kinds, sync and async, stacked decorators, needles in the body text); keyword calls in which '
         'one value at a random position is corrupted (45% of calls), declared defaults that do not conform, *args / **kwargs values, bodies '
-        'returning a corrupted value (20%) or raising. non-trivial = some supplied or produced value does not conform')
+        'returning a corrupted value (20%) or raising; overlapping calls (the call under test is made from the body of a running call of the same or a sibling callable). non-trivial = some supplied or produced value does not conform')
 EXHAUSTIVE = {'quick': False, 'thorough': False}
 ASSUMPTIONS = C.__dict__.get('ASSUMPTIONS', ['programs are real files (inspect.getsource works)'])
 TRUSTED = ['CPython inspect / functools.wraps semantics', 'generator functions: only the creation of the GeneratorWrapper is exercised here (yield / send / return checks: GenWrap model)']
@@ -17,6 +18,7 @@ def cases(rng, tier):
     n = 1500 if tier == 'quick' else 12000
     return C.build_cases(rng, n, calls_per=3, style='kw', tag='c03a') + C.build_cases(rng, n // 3, calls_per=2, style=None, tag='c03b') \
         + C.scenario_cases(rng, n // 8, style='kw', tag='c03sc') + C.scenario_cases(rng, n // 16, tag='c03sd') \
+        + R.reentrant_cases(rng, n // 6, style='kw', tag='c03re') \
         + G.gen_cases(rng, tier)           # generator functions: yield / send / return / throw / close interactions (GenWrap model)
 
 
@@ -25,7 +27,7 @@ def search(rng, tier, near):
 
 
 def run_impl(cases):
-    return G.run_impl_mixed(cases, C.run_impl_calls)
+    return G.run_impl_mixed(cases, R.run_impl)
 
 
 extra_coverage = G.coverage
